@@ -3,6 +3,7 @@ package lint
 // extraRules registers the rule families kept in their own files (tables, storage, locks, ...).
 func extraRules() []*Rule {
 	var out []*Rule
+	out = append(out, rulesLocks()...)
 	return out
 }
 
